@@ -313,6 +313,12 @@ theorem XGInv_step (x y : P2P × TLState) (h : XGInv x) (hs : XStep x y) : XGInv
   | tick s s' t now reqs' hadv =>
     obtain ⟨_, gh', _, _, h', hg', _⟩ := rollbackTick_glueD s s' gh t [] reqs' now st0 h hg hadv
     exact ⟨gh', _, SessInvD_rebase s' gh' t reqs' _ h', hg'⟩
+  | localInput s t handle input =>
+    obtain ⟨l, hl⟩ := P2P.addLocalInput_pending s handle input
+    show XGInv ((s.addLocalInput handle input).1, t)
+    rw [hl]
+    exact ⟨gh, st0, SessInvD_pending s gh t [] st0 l h, GlueInv_pending s gh.g l hg⟩
+  | saves s t sv => exact ⟨gh, st0, SessInvD_userExecute s gh t [] st0 sv h, GlueInv_userExecute s gh.g sv hg⟩
   | dropApi s s' t now handle addr ep hpt hep hrem hlt hl0 hsame hcall =>
     unfold P2P.disconnectPlayer at hcall
     rw [hpt] at hcall
